@@ -75,23 +75,17 @@ func (s *Store) Lookup(ctx context.Context, id string) (*workflow.Record, error)
 		return nil, workflow.ErrRecordNotFound
 	}
 
-	// Return a new pointer so modifications don't affect the store.
-	return &workflow.Record{
-		WorkflowName: record.WorkflowName,
-		ForeignID:    record.ForeignID,
-		RunID:        record.RunID,
-		RunState:     record.RunState,
-		Status:       record.Status,
-		Object:       record.Object,
-		CreatedAt:    record.CreatedAt,
-		UpdatedAt:    record.UpdatedAt,
-		Meta:         record.Meta,
-	}, nil
+	// Return an independent copy so modifications don't affect the store.
+	return copyRecord(record), nil
 }
 
 func (s *Store) Store(ctx context.Context, record *workflow.Record) error {
 	s.mu.Lock()
 	defer s.mu.Unlock()
+
+	// Keep a private copy: the caller remains free to modify or re-use its record (and its object buffer) after
+	// Store has returned.
+	record = copyRecord(record)
 
 	eventData, err := workflow.MakeOutboxEventData(*record)
 	if err != nil {
@@ -135,18 +129,8 @@ func (s *Store) Latest(ctx context.Context, workflowName, foreignID string) (*wo
 		return nil, workflow.ErrRecordNotFound
 	}
 
-	// Return a new pointer so modifications don't affect the store.
-	return &workflow.Record{
-		WorkflowName: record.WorkflowName,
-		ForeignID:    record.ForeignID,
-		RunID:        record.RunID,
-		RunState:     record.RunState,
-		Status:       record.Status,
-		Object:       record.Object,
-		CreatedAt:    record.CreatedAt,
-		UpdatedAt:    record.UpdatedAt,
-		Meta:         record.Meta,
-	}, nil
+	// Return an independent copy so modifications don't affect the store.
+	return copyRecord(record), nil
 }
 
 func (s *Store) ListOutboxEvents(
@@ -256,7 +240,7 @@ func (s *Store) List(
 			continue
 		}
 
-		entries = append(entries, *entry)
+		entries = append(entries, *copyRecord(entry))
 	}
 
 	if order == workflow.OrderTypeDescending {
@@ -293,6 +277,17 @@ func (s *Store) SnapshotOffset(workflowName, foreignID, runID string) int {
 
 	key := snapShotKey(workflowName, foreignID, runID)
 	return s.snapshotsOffsets[key]
+}
+
+// copyRecord returns a deep copy of the record: the object bytes are not shared with the original.
+func copyRecord(record *workflow.Record) *workflow.Record {
+	c := *record
+	if record.Object != nil {
+		c.Object = make([]byte, len(record.Object))
+		copy(c.Object, record.Object)
+	}
+
+	return &c
 }
 
 func snapShotKey(workflowName, foreignID, runID string) string {
